@@ -494,6 +494,17 @@ impl DmlExecutor {
         });
         if marked_by_aborted {
             tuple.set_xmax(Some(snapshot.xid()));
+        } else if let Some(other) = tuple.xmax().filter(|xmax| *xmax != snapshot.xid()) {
+            // Still visible to us, yet marked by somebody who has not aborted: that transaction is
+            // running, or it committed after we began. Our delete cannot be recorded next to its
+            // mark, and skipping it silently would report a delete that never happens.
+            return Err(RuntimeError::TransactionalError(
+                crate::multithreading::coordinator::TransactionError::Other(format!(
+                    "write-write conflict: transaction {} is deleting a row that transaction {} deletes as well",
+                    snapshot.xid(),
+                    other
+                )),
+            ));
         } else {
             tuple.delete(snapshot.xid())?;
         }
